@@ -29,6 +29,21 @@ claim("C09", "proof", "Lean 4 theorems (induction over query histories) + model/
       COMMON_NOTE + "float log/ceil/pow of GeometricInterrupts are external and compared to the exact model up to 1e-9 "
       "with a tolerated exponent difference only at exact lattice hits.", "DESIGN.md section 6, C09")
 
+claim("C01", "proof", "Lean 4 theorems (order conditions with explicit remainders) + full-matrix model/code correspondence",
+      "Every kernel variant of the numba operator files (Cartesian 1-3 axes, polar, spherical conservative/plain, cylindrical; "
+      "central/forward/backward; gradient_squared central or not; single-axis derivatives) is modelled in Lean "
+      "(Model/Stencil.lean, components ordered like grid axes then symmetric axes). Theorems prove, for arbitrary fields of "
+      "characteristic zero, any lattice position, spacing and symbolic polynomial coefficients, that each stencil equals the "
+      "continuum operator of the sampled polynomial plus h^2*E (central) or h*E (one-sided) with an explicit remainder E, that "
+      "E is bounded independently of h at any fixed distance from the axis, that for fields even in r the remainder has no "
+      "singular denominator (uniform second order incl. the cell adjoining the axis), the documented first-order exception of "
+      "the cylindrical vector Laplacian, and linearity. The check reads the complete matrix of grid.make_operator_no_bc off basis "
+      "vectors of the padded input (numba source semantics, JIT subset, scipy route) and compares it entry by entry with the "
+      "model's matrix over exact rationals; a refinement study on smooth fields with all components distinct is the property "
+      "monitor and the failing-input search.",
+      COMMON_NOTE + "Partial: theorems quantify over polynomial fields (all coefficients/sizes/positions); general smooth fields "
+      "are validated by the refinement study; numba/scipy code generation is external.", "DESIGN.md section 6, C01")
+
 claim("C02", "proof", "Lean 4 theorems about the ghost-cell law and its index bookkeeping + model/code differential correspondence",
       "The virtual-point law of every local condition class (value, derivative, mixed incl. the infinite branch, curvature, "
       "periodic, anti-periodic, the three expression targets) and which entries of the padded array a face writes are modelled "
